@@ -3,7 +3,7 @@
    the code as steps). What no model shows: the Go memory model, sync internals, go-git's thread safety. *)
 From Coq Require Import List Arith Bool.
 Import ListNotations.
-From GB Require Import Conc CacheConc CacheExcerpt CachePersist.
+From GB Require Import Conc CacheConc CacheExcerpt CachePersist CacheLru CacheClock.
 
 (* For every schedule of any number of threads running any cache calls on the repaired cache, from any good
    state: every acknowledged operation occurs exactly once in the final stored history of its bug *)
@@ -74,6 +74,29 @@ Theorem C18_saved_cache_fresh_when_done m progs sched : let c := prun sched (pin
 Proof. exact (saved_fresh_when_done m progs sched). Qed.
 Print Assumptions C18_saved_cache_fresh_when_done.
 
+(* "each bug's stored history is a valid chain": every commit carries the time of the lamport clock <namespace>-edit, and
+   a history reads back only if every commit is later than its parent. For any number of goroutines, any sequences of
+   GetOrCreateClock (lookup, creation and registration of a missing clock under ONE hold of the lock of the clock table)
+   and Increment, every schedule: an Increment that comes later hands out a later time; K_C18 checks it on every stored
+   history (the commits of one bug are made one after the other, under the entity lock) *)
+Theorem C18_edit_times_increasing progs sched : (forall p, In p progs -> Forall code_sec p) ->
+  let tr := trace (fst (crun sched (cinit progs))) in
+  forall i j a b, i < j -> nth_error tr i = Some a -> nth_error tr j = Some b -> a < b.
+Proof. exact (times_increasing progs sched). Qed.
+Print Assumptions C18_edit_times_increasing.
+
+(* "no call deadlocks" on a bounded cache. An evicted entity is locked for ever, so a goroutine must never be handed,
+   or left with, a handle the cache is about to evict while fewer entities are in use than it may hold. Resolve makes
+   the entity the most recently used one; whatever is resolved (loaded, evicting others) or notified afterwards, as
+   long as these are fewer than maxLoaded distinct other entities and nothing is staged when an entity is loaded, the
+   entity is still loaded: the handle stays usable. (K_C18: runs of kind c_evict = 3 must not hang.) *)
+Theorem C18_recent_handle_survives c st l b ops D :
+  (forall x, st x = false) -> NoDup l ->
+  (forall o, In o ops -> bug_of o <> b -> In (bug_of o) D) -> length D < c ->
+  In b (lrun true st c (lstep true st c l (LResolve b)) ops).
+Proof. exact (recent_handle_survives c st l b ops D). Qed.
+Print Assumptions C18_recent_handle_survives.
+
 (* Deadlock freedom, general form: threads that take reader/writer locks in strictly increasing rank (hence never
    re-enter one) and finish holding none can always make progress, for any number of threads *)
 Theorem C18_deadlock_free (ts : list rthread) :
@@ -124,6 +147,23 @@ Theorem C18_saved_cache_fresh_refuted_unlocked_write : exists sched,
   pdoneb c && pstaleb c 2 = true.
 Proof. exact unlocked_write_stale. Qed.
 Print Assumptions C18_saved_cache_fresh_refuted_unlocked_write.
+
+(* a GetOrCreateClock that creates a missing clock after it gave the lock of the table back: two goroutines use the clock
+   for the first time at once, each registers an instance of its own, the later registration restarts the clock: everybody
+   done, and a later Increment handed out an earlier (or the same) time *)
+Theorem C18_edit_times_refuted_unlocked_create : exists sched,
+  let c := crun sched (cinit [get_unlocked ++ [CInc]; get_unlocked ++ [CInc] ++ get_unlocked ++ [CInc] ++ get_unlocked ++ [CInc]]) in
+  forallb (fun th => match ccode th with [] => true | _ => false end) (snd c) && negb (increasingb (trace (fst c))) = true.
+Proof. exact times_increasing_refuted_unlocked_create. Qed.
+Print Assumptions C18_edit_times_refuted_unlocked_create.
+
+(* a Resolve that hands out a loaded entity without marking it as recently used: the handle just taken is the one the
+   next load evicts, with one other entity resolved in between and room for three *)
+Theorem C18_recent_handle_refuted_no_refresh : exists c l b ops D,
+  NoDup l /\ (forall o, In o ops -> bug_of o <> b -> In (bug_of o) D) /\ length D < c /\
+  ~ In b (lrun false (fun _ => false) c (lstep false (fun _ => false) c l (LResolve b)) ops).
+Proof. exact stale_position_handle_evicted. Qed.
+Print Assumptions C18_recent_handle_refuted_no_refresh.
 
 (* by design: the lock of an evicted instance is never released; the holder of such a handle waits for ever *)
 Theorem C18_evicted_handle_refuted : exists sched,
